@@ -12,11 +12,13 @@ Conditionings
              from a hidden hypergraph -> realisable, or as a free composition)
   model      nothing (both sequences sampled from the model; optionally avg_deg)
   deg_only / dim_only   only one of the two sequences (the other one is sampled)
+  resample   a second sample() call with another conditioning on the same sampler
 
 All comparisons are exact (integers, sets); no float tolerance is used.
 """
 
 import logging
+import math
 import numbers
 from collections import Counter
 
@@ -32,15 +34,32 @@ logging.disable(logging.WARNING)
 
 ASSUMPTIONS = [
     "u strictly positive (entries in [0.25, 2] times a drawn scale), w symmetric non-negative "
-    "with a positive entry; 4 <= N <= 8 nodes, 1 <= K <= 3; max_hye_size None or in "
-    "[largest conditioned size, N]; burn-in and thinning lengths in 0..30",
+    "with a positive entry; 3 <= N <= 8 nodes, 1 <= K <= 3; max_hye_size None or in "
+    "[max(3, largest conditioned size), N] (max_hye_size=2 is not generated); burn-in and "
+    "thinning lengths in 0..30",
     "an initial hypergraph has exactly N nodes (isolated ones allowed), >= 2 hyperedges of size "
     ">= 2; degree/size sequences have equal totals, sizes in 2..N, >= 2 hyperedges; a fresh "
-    "sampler is built for every sample() call (matching_sequences is never reset by the class)",
-    "a chain that ends up with fewer than two hyperedges (only possible when a sequence is "
-    "sampled from the model) cannot make a move: numpy's ValueError for choosing two of fewer "
-    "than two items (Generator.choice(len(chain), size=2, replace=False)) is counted as "
-    "discarded in the modes model / deg_only / dim_only, never in the modes initial / sequences",
+    "sampler is built for every case; only the clause 'resample' calls sample() a second time on "
+    "the same sampler, and there no demand depends on matching_sequences (the class never "
+    "resets the flag between calls)",
+    "a chain that ends up with fewer than two hyperedges cannot make a move: a ValueError "
+    "(whatever its wording) before the first sample is counted as discarded ONLY where the size "
+    "sequence is sampled from the model (modes model / deg_only) and the model expects few "
+    "hyperedges; never for an initial hypergraph, a supplied size sequence (modes sequences, "
+    "dim_only: every supplied size is filled) or the family 'sure' (model scaled to expect >= 30 "
+    "hyperedges of size 3, standard deviation 5.5, no avg_deg rescaling), where a sample is demanded",
+    "sample() documents that deg_seq, dim_seq, avg_deg and allow_rescaling are ignored when "
+    "initial_hyg is given: a third of the initial cases pass contradictory values along and make "
+    "the same demands",
+    "matching_sequences must be True for two families that every construction filling one "
+    "hyperedge after the other with distinct nodes of largest remaining degree realises: the "
+    "sequences of pairwise disjoint hyperedges, and m hyperedges of one size d with N equal "
+    "degrees k (N*k = m*d: largest-first keeps the remaining degrees within 1 of each other); "
+    "elsewhere the flag is only trusted when it says True",
+    "a degree sequence alone (deg_only) is observed, not demanded: the statement bounds degrees "
+    "only for an initial hypergraph or a pair of sequences reported as matching",
+    "the generator of an earlier sample() call stays usable after a later call on the same "
+    "sampler (its next element is held to the earlier conditioning)",
     "the random outcomes of the chain are sampled over seeds, not exhausted; the first 3-5 "
     "elements of the generator are inspected",
     "positive integer weight = instance of numbers.Integral (numpy integers included) and > 0",
@@ -79,14 +98,99 @@ def pair_sum(u, w):
 
 
 @st.composite
+def initial_parts(draw, N, uni, max_size):
+    """An initial hypergraph on the labels of `uni`: >= 2 distinct hyperedges of size 2..max_size."""
+    edges = draw(S.edge_sets(N, min_edges=2, max_edges=8, min_size=2, max_size=max_size))
+    return {"kind": uni["kind"], "labels": uni["labels"], "edges": edges,
+            "weights": ([draw(st.integers(1, 5)) for _ in edges]
+                        if draw(st.booleans()) else None),
+            "all_nodes": draw(st.sampled_from([True, True, False]))}
+
+
+def _divisors_ok(N, d, t):
+    k = t * d // math.gcd(N, d)
+    return k, N * k // d
+
+
+@st.composite
+def sequence_parts(draw, N, mode, max_size, families=True):
+    """A degree and a size sequence with equal totals, sizes in 2..max_size, >= 2 hyperedges.
+
+    family None      from a hidden hypergraph (realisable) or a free composition of its total
+    family disjoint  the sequences of pairwise disjoint hyperedges (all degrees 0 or 1)
+    family regular   m hyperedges of one size d, every node of the same degree k (N*k = m*d)
+    The last two are realised by EVERY run of a construction that fills one hyperedge after the
+    other with distinct nodes of largest remaining degree (see ASSUMPTIONS)."""
+    family = None
+    if families and mode == "sequences":
+        family = draw(st.sampled_from([None, None, None, "disjoint", "regular"]))
+    if family == "disjoint" and N < 4:
+        family = "regular"
+    if family == "disjoint":
+        sizes, left = [], N
+        while left >= 2 and len(sizes) < 4:
+            hi = min(max_size, left if len(sizes) else left - 2)
+            if hi < 2:
+                break
+            d = draw(st.integers(2, hi))
+            sizes.append(d)
+            left -= d
+            if len(sizes) >= 2 and draw(st.booleans()):
+                break
+        members = draw(st.permutations(list(range(N))))
+        deg = [0] * N
+        for i in members[:sum(sizes)]:
+            deg[i] = 1
+        cnt = Counter(sizes)
+        order = draw(st.permutations(sorted(cnt)))
+        return {"realisable_by_construction": True, "family": family, "deg_seq": deg,
+                "dim_seq": [[d, cnt[d]] for d in order]}
+    if family == "regular":
+        d = draw(st.integers(2, max_size))
+        k, m = _divisors_ok(N, d, 2 if draw(st.booleans()) else 1)
+        if m > 12 or m < 2:
+            k, m = _divisors_ok(N, d, 1)
+        if m < 2:
+            k, m = 2 * k, 2 * m
+        return {"realisable_by_construction": True, "family": family, "deg_seq": [k] * N,
+                "dim_seq": [[d, m]]}
+    realisable = draw(st.booleans())
+    # deg_only: small conditioned sizes and many nodes, so that max_hye_size="top" is a real
+    # restriction for the sizes the sampler draws for the left-over degrees
+    biggest = 3 if (mode == "deg_only" and draw(st.booleans())) else max_size
+    hidden = draw(S.edge_sets(N, min_edges=2 if mode != "deg_only" else min(4, N),
+                              max_edges=7, min_size=2, max_size=biggest))
+    sizes = Counter(len(e) for e in hidden)
+    order = draw(st.permutations(sorted(sizes)))
+    dim_seq = [[d, sizes[d]] for d in order]
+    total = sum(len(e) for e in hidden)
+    if realisable:
+        deg = [sum(1 for e in hidden if i in e) for i in range(N)]
+    else:
+        # a free composition of the same total over the N nodes
+        cuts = sorted(draw(st.lists(st.integers(0, total), min_size=N - 1, max_size=N - 1)))
+        deg = [b - a for a, b in zip([0] + cuts, cuts + [total])]
+    return {"realisable_by_construction": realisable, "family": None,
+            "deg_seq": deg, "dim_seq": dim_seq}
+
+
+@st.composite
 def cases(draw, modes):
     mode = draw(st.sampled_from(list(modes)))
+    sure = False
+    if mode == "model_sure":
+        mode, sure = "model", True
+    elif mode == "model":
+        sure = draw(st.integers(0, 3)) == 0
+    # three nodes (one possible hyperedge of size 3, three of size 2) in about a tenth of the cases
+    small = draw(st.integers(0, 9)) == 0
     if mode == "initial":
-        uni = draw(S.universes(min_size=4, max_size=8))
+        uni = draw(S.universes(min_size=3, max_size=3) if small else
+                   S.universes(min_size=4, max_size=8))
         labels = uni["labels"]
     else:
         uni = {"kind": "range"}
-        labels = list(range(draw(st.integers(4, 8))))
+        labels = list(range(3 if small else draw(st.integers(4, 8))))
     N = len(labels)
     K, u, w = draw(parameters(N))
     # hard memberships (one-hot rows, diagonal w): a hyperedge across communities has Poisson
@@ -116,48 +220,64 @@ def cases(draw, modes):
             "n_samples": draw(st.integers(3, 5))}
     top = 2
     if mode == "initial":
-        edges = draw(S.edge_sets(N, min_edges=2, max_edges=8, min_size=2, max_size=min(N, 5)))
-        case["initial"] = {
-            "kind": uni["kind"], "labels": labels, "edges": edges,
-            "weights": ([draw(st.integers(1, 5)) for _ in edges]
-                        if draw(st.booleans()) else None),
-            "all_nodes": draw(st.sampled_from([True, True, False]))}
-        top = max(len(e) for e in edges)
+        case["initial"] = draw(initial_parts(N, uni, min(N, 5)))
+        top = max(len(e) for e in case["initial"]["edges"])
+        if draw(st.integers(0, 2)) == 0:
+            # sample() documents that deg_seq, dim_seq, avg_deg and allow_rescaling are IGNORED
+            # when initial_hyg is given: contradictory values are passed along
+            dims = draw(st.lists(st.integers(2, N), min_size=1, max_size=3, unique=True))
+            case["ignored_args"] = {
+                "deg_seq": draw(st.lists(st.integers(0, 4), min_size=N, max_size=N)),
+                "dim_seq": [[d, draw(st.integers(1, 4))] for d in dims],
+                "avg_deg": draw(st.sampled_from([0.25, 2.0, 9.0])),
+                "allow_rescaling": True}
     if mode in ("sequences", "deg_only", "dim_only"):
-        realisable = draw(st.booleans())
-        # deg_only: small conditioned sizes and many nodes, so that max_hye_size="top" is a real
-        # restriction for the sizes the sampler draws for the left-over degrees
-        biggest = 3 if (mode == "deg_only" and draw(st.booleans())) else min(N, 5)
-        hidden = draw(S.edge_sets(N, min_edges=2 if mode != "deg_only" else 4, max_edges=7,
-                                  min_size=2, max_size=biggest))
-        sizes = Counter(len(e) for e in hidden)
-        order = draw(st.permutations(sorted(sizes)))
-        dim_seq = [[d, sizes[d]] for d in order]
-        total = sum(len(e) for e in hidden)
-        if realisable:
-            deg = [sum(1 for e in hidden if i in e) for i in range(N)]
-        else:
-            # a free composition of the same total over the N nodes
-            cuts = sorted(draw(st.lists(st.integers(0, total), min_size=N - 1, max_size=N - 1)))
-            deg = [b - a for a, b in zip([0] + cuts, cuts + [total])]
-        case["sequences"] = {"realisable_by_construction": realisable,
-                             "deg_seq": deg, "dim_seq": dim_seq}
+        case["sequences"] = draw(sequence_parts(N, mode, min(N, 5)))
         case["allow_rescaling"] = draw(st.booleans())
-        top = max(sizes)
+        top = max(d for d, _ in case["sequences"]["dim_seq"])
     if mode in ("model", "deg_only", "dim_only"):
         # scale u so that the model expects `target`/3 hyperedges of size 3, /6 of size 4, ...
-        target = draw(st.sampled_from([3.0, 6.0, 9.0, 15.0, 24.0, 40.0] if mode == "deg_only"
-                                      else [6.0, 9.0, 15.0, 24.0, 40.0]))
+        pool = [6.0, 9.0, 15.0, 24.0, 40.0]
+        if mode == "deg_only":
+            pool = [3.0] + pool
+        if sure:
+            # >= 30 expected hyperedges of size 3 (standard deviation 5.5): the chain has two
+            # hyperedges whatever the seed is, the sampler must produce samples
+            pool = [90.0, 150.0]
+        target = draw(st.sampled_from(pool))
         f = (target / pair_sum(u, w)) ** 0.5
         case["u"] = [[x * f for x in r] for r in u]
         case["target_pair_sum"] = target
     if mode == "model":
-        case["avg_deg"] = draw(st.sampled_from([None, None, 2.0, 3.5]))
+        case["avg_deg"] = None if sure else draw(st.sampled_from([None, None, 2.0, 3.5]))
         case["allow_rescaling"] = draw(st.booleans())
+        case["sure"] = sure
         top = 3
     case["max_hye"] = draw(st.sampled_from([None, "top", "top", "N"] if mode == "deg_only"
                                            else [None, None, "top", "N"]))
     case["top"] = min(N, max(top, 3))
+    return case
+
+
+@st.composite
+def resample_cases(draw):
+    """A first conditioning that always yields samples, and a second, different conditioning for
+    another sample() call on the SAME sampler (an initial hypergraph on its own labels, a pair
+    of sequences, or a size sequence only)."""
+    case = draw(cases(("initial", "sequences", "dim_only", "model_sure")))
+    N = case["N"]
+    limit = max_hye_arg(case) or N
+    kind = draw(st.sampled_from(["initial", "initial", "sequences", "dim_only"]))
+    second = {"mode": kind, "N": N}
+    if kind == "initial":
+        uni = draw(S.universes(min_size=N, max_size=N))
+        second["initial"] = draw(initial_parts(N, uni, min(limit, 5)))
+    else:
+        second["sequences"] = draw(sequence_parts(N, kind, min(limit, 5), families=False))
+        second["allow_rescaling"] = draw(st.booleans())
+    case["second"] = second
+    case["n_samples"] = min(case["n_samples"], 3)
+    case["n_second"] = draw(st.integers(2, 3))
     return case
 
 
@@ -207,11 +327,15 @@ def sample_kwargs(case):
     kw = {}
     if mode == "initial":
         kw["initial_hyg"] = build_initial(case)[0]
+        ign = case.get("ignored_args")
+        if ign:
+            kw.update(deg_seq=np.array(ign["deg_seq"]), dim_seq={d: c for d, c in ign["dim_seq"]},
+                      avg_deg=ign["avg_deg"], allow_rescaling=ign["allow_rescaling"])
     if mode in ("sequences", "deg_only"):
         kw["deg_seq"] = np.array(case["sequences"]["deg_seq"])
     if mode in ("sequences", "dim_only"):
         kw["dim_seq"] = {d: c for d, c in case["sequences"]["dim_seq"]}
-    if mode == "model" and case["avg_deg"] is not None:
+    if mode == "model" and case.get("avg_deg") is not None:
         kw["avg_deg"] = case["avg_deg"]
     if "allow_rescaling" in case:
         kw["allow_rescaling"] = case["allow_rescaling"]
@@ -222,25 +346,39 @@ class Discarded(Exception):
     pass
 
 
-def draw_samples(case, arrays=None):
-    """(sampler, [Hypergraph, ...]) -- the first n_samples elements of sample()."""
-    sampler = new_sampler(case, arrays)
-    gen = iter(sampler.sample(**sample_kwargs(case)))
-    out = []
-    for _ in range(case["n_samples"]):
+def may_discard(case):
+    """The chain can come out with fewer than two hyperedges only when the SIZE sequence is
+    sampled from the model (modes model / deg_only) and the model does not expect dozens of
+    hyperedges (family 'sure').  A supplied size sequence is always filled completely."""
+    return case["mode"] in ("model", "deg_only") and not case.get("sure")
+
+
+def take(gen, n, case, out=None):
+    out = [] if out is None else out
+    for _ in range(n):
         try:
             out.append(next(gen))
         except ValueError:
-            # In the modes where a degree/size sequence is SAMPLED from the model the chain may
+            # In the modes where the size sequence is SAMPLED from the model the chain may
             # come out with fewer than two hyperedges, which the sampler refuses with a
             # ValueError before it yields anything.  The property constrains the hypergraphs
             # that are produced, so such a run is discarded (and counted), whatever the wording
-            # of the refusal.  An initial hypergraph or a pair of sequences with >= 2 hyperedges
-            # (the quantifier's domain) must never be refused, and nothing may fail once a
-            # first sample was produced.
-            if case["mode"] not in ("initial", "sequences") and not out:
+            # of the refusal.  An initial hypergraph, a supplied size sequence with >= 2
+            # hyperedges or a model that expects >= 30 hyperedges of size 3 must never be
+            # refused, and nothing may fail once a first sample was produced.
+            if may_discard(case) and not out:
                 raise Discarded() from None
             raise
+    return out
+
+
+def draw_samples(case, arrays=None, keep_generator=False):
+    """(sampler, [Hypergraph, ...]) -- the first n_samples elements of sample()."""
+    sampler = new_sampler(case, arrays)
+    gen = iter(sampler.sample(**sample_kwargs(case)))
+    out = take(gen, case["n_samples"], case)
+    if keep_generator:
+        return sampler, out, gen
     return sampler, out
 
 
@@ -278,9 +416,15 @@ def _classify(case, ctx):
         ctx.label("no thinning")
     if case["mode"] == "initial":
         ctx.label("labels:" + case["initial"]["kind"])
+        if case.get("ignored_args"):
+            ctx.label("initial_hyg together with contradictory deg_seq/dim_seq/avg_deg/rescaling")
     if "sequences" in case:
-        ctx.label("sequences from a hidden hypergraph" if
+        fam = case["sequences"].get("family")
+        ctx.label("sequences: %s family (every greedy construction realises them)" % fam if fam
+                  else "sequences from a hidden hypergraph" if
                   case["sequences"]["realisable_by_construction"] else "free degree composition")
+    if case.get("sure"):
+        ctx.label("model expects >= 30 hyperedges of size 3 (no discard possible)")
     return steps
 
 
@@ -290,8 +434,10 @@ def _run(case, ctx):
         sampler, samples = draw_samples(case)
     except Discarded:
         ctx.exclude("chain with fewer than two hyperedges (sequences sampled from the model)")
-        ctx.label("discarded")
+        ctx.label("discarded", "discarded, mode:" + case["mode"])
         return None, None, steps
+    if may_discard(case):
+        ctx.label("not discarded, mode:" + case["mode"])
     return sampler, samples, steps
 
 
@@ -384,12 +530,19 @@ def _explained_by_merges(edges, short_deg, short_size, missing):
 
 def check_conditioning_initial(case, ctx):
     sampler, samples, steps = _run(case, ctx)
+    moved = assert_initial_conditioning(case, samples, ctx)
+    ctx.nontrivial(steps >= 10 and moved)
+
+
+def assert_initial_conditioning(case, samples, ctx, first=0):
+    """The statement's demands on samples of a chain started from case['initial'];
+    returns whether some sample differs from the initial configuration."""
     h0, start = build_initial(case)
     labels = case["initial"]["labels"]
     deg0, size0 = degrees_and_sizes(start, labels)
     moved = False
     full = 0
-    for j, h in enumerate(samples):
+    for j, h in enumerate(samples, first):
         tab = table(h)
         deg, size = degrees_and_sizes(tab, labels)
         require(set(deg) <= set(deg0),
@@ -436,7 +589,7 @@ def check_conditioning_initial(case, ctx):
                                           "some" if full else "none"))
     if moved:
         ctx.label("sample differs from the initial configuration")
-    ctx.nontrivial(steps >= 10 and moved)
+    return moved
 
 
 def check_conditioning_sequences(case, ctx):
@@ -451,6 +604,15 @@ def check_conditioning_sequences(case, ctx):
             % (matching,), key="flag")
     matching = bool(matching)
     ctx.label("matching_sequences=%r" % matching)
+    fam = case["sequences"].get("family")
+    if fam:
+        # pairwise disjoint hyperedges / one size with equal degrees: a construction that fills
+        # hyperedge after hyperedge with distinct nodes of largest remaining degree never runs
+        # out of nodes, so the sampler has no reason to report a mismatch
+        require(matching,
+                lambda: "matching_sequences is False for the degree sequence %r and the size "
+                "sequence %r (%s family: every greedy construction realises them)"
+                % (deg_seq, dim_seq, fam), key="flag_false_on_realisable")
     tables = []
     for j, h in enumerate(samples):
         tab = table(h)
@@ -504,6 +666,7 @@ def check_partial_conditioning(case, ctx):
         return
     check_samples_valid(case, samples)
     N = case["N"]
+    exceeded = False
     for j, h in enumerate(samples):
         tab = table(h)
         deg, size = degrees_and_sizes(tab, range(N))
@@ -515,13 +678,15 @@ def check_partial_conditioning(case, ctx):
                         "sequence %r allows %d" % (j, size[d], d, dim_seq, dim_seq.get(d, 0)),
                         key="size_exceeded")
         else:
+            # a degree sequence alone: the statement promises degree bounds for an initial
+            # hypergraph or a MATCHING pair of sequences only, and sample()'s docstring says
+            # nothing more -- observed, not demanded
             deg_seq = case["sequences"]["deg_seq"]
-            for i in range(N):
-                require(deg[i] <= deg_seq[i],
-                        lambda: "sample %d: node %d has degree %d > %d of the supplied degree "
-                        "sequence %r (sample %r)" % (j, i, deg[i], deg_seq[i], deg_seq,
-                                                     [sorted(e) for e in tab]),
-                        key="degree_exceeded")
+            if any(deg[i] > deg_seq[i] for i in range(N)):
+                exceeded = True
+    if case["mode"] == "deg_only":
+        ctx.label("deg_only: supplied degrees exceeded in a sample (not demanded)" if exceeded
+                  else "deg_only: supplied degrees never exceeded (not demanded)")
     ctx.nontrivial(steps >= 10 and any(s.num_edges() >= 2 for s in samples))
 
 
@@ -536,6 +701,74 @@ def check_samples_valid(case, samples):
             require(2 <= len(e) <= limit and all(n in allowed for n in e),
                     lambda: "sample %d: hyperedge %r (allowed sizes 2..%d, nodes 0..%d)"
                     % (j, sorted(e, key=repr), limit, case["N"] - 1), key="invalid_hyperedge")
+
+
+def assert_size_bounds(dim_pairs, samples, what, first=0):
+    """Flag-independent demands on samples conditioned on a size sequence."""
+    dim_seq = {d: c for d, c in dim_pairs}
+    total = sum(dim_seq.values())
+    for j, h in enumerate(samples, first):
+        tab = table(h)
+        size = Counter(len(e) for e in tab)
+        for d in size:
+            require(size[d] <= dim_seq.get(d, 0),
+                    lambda: "%s: sample %d has %d hyperedges of size %d, the size sequence %r "
+                    "allows %d" % (what, j, size[d], d, dim_seq, dim_seq.get(d, 0)),
+                    key="size_exceeded")
+        if len(tab) == total:
+            require(dict(size) == dim_seq,
+                    lambda: "%s: sample %d has %d hyperedges = total of the size sequence, but "
+                    "sizes %r != %r" % (what, j, total, dict(size), dim_seq),
+                    key="sizes_not_preserved")
+
+
+def assert_conditioning_flag_free(case, samples, what, ctx, first=0):
+    """Validity and every demand that does not depend on matching_sequences."""
+    from hypergraphx import Hypergraph
+    if case["mode"] == "initial":
+        allowed = set(case["initial"]["labels"])
+    else:
+        allowed = set(range(case["N"]))
+    for j, h in enumerate(samples, first):
+        require(isinstance(h, Hypergraph) and h.is_weighted() is True,
+                lambda: "%s: sample %d is %r, weighted: %r"
+                % (what, j, type(h), getattr(h, "is_weighted", lambda: None)()), key="type")
+        for e, wgt in table(h).items():
+            require(isinstance(wgt, numbers.Integral) and not isinstance(wgt, bool) and wgt > 0,
+                    lambda: "%s: sample %d: hyperedge %r has weight %r" % (what, j, sorted(e, key=repr), wgt),
+                    key="weight")
+            require(len(e) >= 2 and all(n in allowed for n in e),
+                    lambda: "%s: sample %d: hyperedge %r (sizes >= 2, nodes %r)"
+                    % (what, j, sorted(e, key=repr), sorted(allowed, key=repr)), key="invalid_hyperedge")
+        require(all(n in allowed for n in h.get_nodes()),
+                lambda: "%s: sample %d: get_nodes() = %r is not inside %r"
+                % (what, j, list(h.get_nodes()), sorted(allowed, key=repr)), key="foreign_node")
+    if case["mode"] == "initial":
+        assert_initial_conditioning(case, samples, ctx, first)
+    elif case["mode"] in ("sequences", "dim_only"):
+        assert_size_bounds(case["sequences"]["dim_seq"], samples, what, first)
+
+
+def check_resample(case, ctx):
+    """sample() once more on the same sampler with another conditioning ('a new call to this
+    method is required').  matching_sequences is not reset between calls, so only demands that
+    do not depend on the flag are made: validity, node set, the size counts of a supplied size
+    sequence, everything the statement says about an initial hypergraph.  The first generator
+    is then resumed: its next element still obeys the first conditioning."""
+    steps = _classify(case, ctx)
+    second = case["second"]
+    ctx.label("second call: " + second["mode"])
+    sampler, samples, gen = draw_samples(case, keep_generator=True)
+    assert_conditioning_flag_free(case, samples, "first call (%s)" % case["mode"], ctx)
+    gen2 = iter(sampler.sample(**sample_kwargs(second)))
+    later = take(gen2, case["n_second"], second)
+    assert_conditioning_flag_free(second, later, "second sample() call on the same sampler "
+                                  "(%s after %s)" % (second["mode"], case["mode"]), ctx)
+    resumed = take(gen, 1, case, out=list(samples))[len(samples):]
+    assert_conditioning_flag_free(case, resumed, "first generator (%s) resumed after a second "
+                                  "sample() call (%s)" % (case["mode"], second["mode"]), ctx,
+                                  first=len(samples))
+    ctx.nontrivial(steps >= 10 and any(h.num_edges() >= 2 for h in later))
 
 
 def check_determinism(case, ctx):
@@ -554,8 +787,10 @@ def check_determinism(case, ctx):
     a, b = runs
     if a == "discarded" and b == "discarded":
         ctx.exclude("chain with fewer than two hyperedges (sequences sampled from the model)")
-        ctx.label("discarded")
+        ctx.label("discarded", "discarded, mode:" + case["mode"])
         return
+    if may_discard(case):
+        ctx.label("not discarded, mode:" + case["mode"])
 
     def show(r):
         return r if r == "discarded" else [
@@ -661,6 +896,9 @@ CLAUSES = [
     Clause("partial_conditioning", lambda tier: cases(("deg_only", "dim_only")),
            check_partial_conditioning, quick=200, thorough=800, shards_quick=2,
            rule="at least 10 MCMC steps and a sample with >= 2 hyperedges"),
+    Clause("resample", lambda tier: resample_cases(),
+           check_resample, quick=60, thorough=400, shards_quick=2,
+           rule="at least 10 MCMC steps and a sample with >= 2 hyperedges from the second call"),
     Clause("determinism", lambda tier: cases(ALL_MODES),
            check_determinism, quick=150, thorough=900, shards_quick=3,
            rule="at least 10 MCMC steps, a sample with >= 2 hyperedges and two different "
